@@ -106,6 +106,23 @@ func c09Check(c c09Case) *Violation {
 	if pi := guard(func() { min = gts.Minimize(c.build(nil, nil)) }); pi != nil {
 		return panicViolation("Minimize", pi)
 	}
+	// the result is judged after further calls on other collections: it must not change under them
+	{
+		first := fmt.Sprint(min)
+		others := []gts.Region{gts.Regions{gts.Segment{0, minInt(1, c.N)}}, gts.Regions{gts.Segment{c.N, c.N / 2}, gts.Segment{0, c.N / 3}}}
+		if pi := guard(func() {
+			for _, o := range others {
+				gts.Minimize(o)
+				gts.InvertLinear(o, c.N)
+				gts.InvertCircular(o, c.N)
+			}
+		}); pi != nil {
+			return panicViolation("Minimize/Invert of another collection", pi)
+		}
+		if now := fmt.Sprint(min); now != first {
+			return viol("result-later", "Minimize returned %s, which reads %s after other collections were minimized and inverted", first, now)
+		}
+	}
 	// --- Minimize: forward, strictly increasing, disjoint, non-abutting, exact cover
 	got := make([]int, c.N)
 	for i, s := range min {
